@@ -61,6 +61,7 @@ type c19Tree struct {
 	elems     []string // tag + sorted "name=value(ws-collapsed)" in document order
 	texts     []string // non-whitespace text runs, whitespace-collapsed, mustaches removed, concatenated per element
 	mustaches []string // sorted multiset
+	pres      []string // the exact text content of every <pre> element (nested elements' text included), in document order
 }
 
 func c19Parse(src string) c19Tree {
@@ -102,8 +103,30 @@ func c19Parse(src string) c19Tree {
 			walk(c, raw)
 		}
 	}
+	var preText func(n *html.Node, sb *strings.Builder)
+	preText = func(n *html.Node, sb *strings.Builder) {
+		if n.Type == html.TextNode {
+			sb.WriteString(n.Data)
+		}
+		for c := n.FirstChild; c != nil; c = c.NextSibling {
+			preText(c, sb)
+		}
+	}
+	var findPre func(n *html.Node)
+	findPre = func(n *html.Node) {
+		if n.Type == html.ElementNode && n.Data == "pre" {
+			var sb strings.Builder
+			preText(n, &sb)
+			t.pres = append(t.pres, sb.String())
+			return
+		}
+		for c := n.FirstChild; c != nil; c = c.NextSibling {
+			findPre(c)
+		}
+	}
 	for _, n := range nodes {
 		walk(n, false)
+		findPre(n)
 	}
 	t.texts = []string{strings.Join(strings.Fields(allText.String()), " ")}
 	sort.Strings(t.mustaches)
@@ -209,6 +232,9 @@ func c19Eval(name, src string) *Case {
 	}
 	if strings.Join(a.texts, "|") != strings.Join(b.texts, "|") {
 		fail("meaning-changed:text", "text differs:\n source %q\n formatted %q\n formatted text %q", a.texts, b.texts, f1)
+	}
+	if strings.Join(a.pres, "\x00") != strings.Join(b.pres, "\x00") {
+		fail("meaning-changed:pre-content", "<pre> content altered by formatting:\n source %q\n formatted %q\n formatted text %q", a.pres, b.pres, f1)
 	}
 	if strings.Join(a.mustaches, "|") != strings.Join(b.mustaches, "|") {
 		fail("meaning-changed:mustaches", "mustache expressions differ: %v vs %v", a.mustaches, b.mustaches)
